@@ -16,7 +16,9 @@ RULE = ("corpus-derived structures (incl. 3SGB's insertion-coded residues, gener
         "lower-case chain ids, ligands, ions) x relabellings: injective chain renaming; per-chain constant shifts (to "
         "negative, to a start at exactly 0, by multiples of 1000, beyond 999); strictly increasing renumbering; "
         "sequential renumbering that resolves insertion codes; introduction of insertion codes; exactly symmetric dimers "
-        "(two-fold axis / mirror plane through the origin, one ionizable group touching its image). Non-trivial: the "
+        "(two-fold axis / mirror plane through the origin, one ionizable group touching its image); two independent "
+        "chains in contact through one polar side-chain atom each; whole reference proteins with threaded clusters. "
+        "Non-trivial: the "
         "relabelling changed the text and >= 2 reported groups have determinants; distinct by hash of (input, "
         "relabelled input).")
 ASSUMPTIONS = [
@@ -355,6 +357,60 @@ def run_shard(ctx):
         ctx.account(case, v, info)
 
     ctx.hypothesis_stage("symmetric-dimers", dimers(), dimer_body, 500 if quick else 8000)
+
+    # two independent chains brought into contact through one polar side-chain atom each (all pair types, including
+    # the pairs whose hydrogen-bond term depends on the order of the two groups)
+    CONTACT = SITE | {("ASN", "ND2"), ("ASN", "OD1"), ("GLN", "NE2"), ("GLN", "OE1"), ("SER", "OG"), ("THR", "OG1"),
+                      ("TRP", "NE1")}
+
+    @st.composite
+    def contacts(draw):
+        parts = []
+        for _ in range(2):
+            s = draw(gen.structures(max_res=14 if quick else 30, allow_hetero=False, multi_chain=False,
+                                    allow_icode=False, allow_truncation=False, always_ter=True))
+            atoms = [a.copy() for a in pdbio.atoms_of(s.entries)]
+            if len({a.chain for a in atoms}) != 1:
+                return None
+            parts.append((s, atoms))
+        (sa, A), (sb, B) = parts
+        B = pdbio.atoms_of(pdbio.move(B, pdbio.ROTATIONS[draw(st.integers(0, 23))], (0, 0, 0)))
+        ax = draw(st.integers(0, 2))
+        sgn = draw(st.sampled_from([1, -1]))
+        ca = [a for a in A if (a.resn, a.aname) in CONTACT]
+        cb = [a for a in B if (a.resn, a.aname) in CONTACT]
+        if not ca or not cb:
+            return None
+        site_a = max(ca, key=lambda a: sgn * a.xyz[ax])
+        site_b = min(cb, key=lambda a: sgn * a.xyz[ax])
+        off = [draw(st.integers(-600, 600)) for _ in range(3)]
+        off[ax] = sgn * draw(st.integers(2600, 3600))
+        t = tuple(site_a.xyz[i] + off[i] - site_b.xyz[i] for i in range(3))
+        B = pdbio.atoms_of(pdbio.move(B, pdbio.ROTATIONS[0], t))
+        if any(not pdbio.COORD_MIN + 2000 < v < pdbio.COORD_MAX - 2000 for a in B for v in a.xyz):
+            return None
+        cid = "B" if A[0].chain != "B" else "C"
+        for a in B:
+            a.chain = cid
+        ents = A + [gen.ter_line(A[-1])] + B + [gen.ter_line(B[-1])]
+        pdbio.renumber_serials(ents)
+        o = _S()
+        o.entries = ents
+        rel, kinds, ok = draw(relabel(o))
+        return sa, pdbio.write(ents), pdbio.write(rel), kinds, ok, "%s-%s" % tuple(sorted((site_a.resn, site_b.resn)))
+
+    def contact_body(t):
+        if t is None or not t[4]:
+            ctx.labels["skipped:no-site-or-duplicate-id"] += 1
+            return
+        sa, base, rel, kinds, ok, pair = t
+        case = {"pdb": base, "relabelled": rel, "kinds": ["relabel:" + k for k in kinds], "optargs": []}
+        v, info = check_case(case)
+        info["labels"] = info.get("labels", []) + ["inter-chain-contact", "contact:" + pair]
+        info["sample"] = {"structure": sa.summary(), "contact": pair, "relabelling": kinds}
+        ctx.account(case, v, info)
+
+    ctx.hypothesis_stage("inter-chain-contacts", contacts(), contact_body, 600 if quick else 9000)
 
     # the repository's own insertion-coded structure under twin-preserving relabellings, and the F5 witness
     if ctx.shard == 0:
